@@ -246,6 +246,7 @@ def run(ctx):
     _default_base_access(ctx)
     _by_name_keys(ctx)
     _base_specifiers(ctx)
+    _accessors_do_not_shadow_methods(ctx)
 
 
 def _contains(tree, node):
@@ -598,3 +599,51 @@ def _base_specifiers(ctx):
     # cross-check with the compiled parser: the same number of append_derivation calls
     calls = sum(1 for f in db.functions if f.file.endswith("cppBison.cxx") for c in f.walk() if c.get("k") == "call" and callee_short(c) == "append_derivation")
     ctx.ob("R05.8", "base_specification|reader-agrees-with-compiler", calls == len(alts), "src/cppparser/cppBison.yxx:%d" % alts[0].line, "%d alternatives read from the grammar, %d append_derivation calls in the generated parser" % (len(alts), calls))
+
+
+def _accessors_do_not_shadow_methods(ctx):
+    """R05.9: a synthesised `get_<member>` / `set_<member>` and a user-written method of the same name land in the same
+    database function (they are keyed by name).  If the accessor is made first, the user's method is recorded as a
+    getter with the member as its expression and its wrapper never calls it.  The builder must therefore consult, before
+    it synthesises, both what it has already scanned (_functions_by_name) and what the declaring scope declares
+    (CPPScope::_functions) - the latter is complete after parsing whatever the declaration order.  (F-C05b.)"""
+    db = ctx.db
+    ctx.rule("R05.9", "get_getter()/get_setter() reach get_function() only when neither _functions_by_name nor the declaring scope's _functions holds the accessor's name")
+    n = 0
+    for short in ("get_getter", "get_setter"):
+        f = db.fn("InterrogateBuilder::" + short)
+        sinks = [c for c in f.walk() if c.get("k") == "call" and c.get("f") == "InterrogateBuilder::get_function"]
+        if not sinks:
+            ctx.broken("R05.9: %s no longer calls get_function()" % short)
+
+        def absent_in(suffix):
+            def holds(atom, truth):
+                c = G.cmp_atom(atom)
+                if not c:
+                    return False
+                op, u, v = c
+                if not truth:
+                    op = G.NEG[op]
+                for p, q in ((u, v), (v, u)):
+                    pp = strip_casts(peel(p)) if p is not None else None
+                    if pp is not None and pp.get("k") == "call" and callee_short(pp) in ("count", "find") and "this" in pp \
+                            and (field_of(strip_casts(peel(pp["this"]))) or "").endswith(suffix):
+                        if callee_short(pp) == "count":
+                            return q is not None and const_int(q) == 0 and op == "=="
+                        return (strip_casts(peel(q)) or {}).get("k") == "call" and callee_short(strip_casts(peel(q))) == "end" and op == "=="
+                return False
+            return holds
+        for suffix, what in (("InterrogateBuilder::_functions_by_name", "already-scanned"), ("CPPScope::_functions", "declared-in-scope")):
+            pred = absent_in(suffix)
+            if suffix.startswith("CPPScope::"):
+                # no declaring scope at all: nothing is declared in it
+                sp = [p for p in f.params if p["t"].replace(" ", "") == "CPPScope*"]
+                if sp:
+                    pred = G.any_of(pred, G.local_is_null(sp[0]["d"]))
+            edges = G.edges_where(f, pred)
+            for s in sinks:
+                n += 1
+                ok = bool(edges) and G.gated(f, s, edges)
+                ctx.ob("R05.9", "%s|synthesis|only-if-name-not-%s" % (short, what), ok, f.loc(s),
+                       "get_function() for the synthesised accessor is %sbehind `%s` not holding the name" % ("" if ok else "NOT ", suffix.split("::")[-1]))
+    ctx.floor("R05.9", "name-collision obligations of the accessor synthesis", n, 4)
